@@ -195,6 +195,23 @@ class C01(GenCheck):
                 return ["c", dsl.OPS[x[0]](subs[0][1], subs[1][1])]
             except (ZeroDivisionError, ValueError, OverflowError):
                 return [x[0]] + subs
+        # Register (64 bit) +/- int is a Sum; adding further ints folds into its constant
+        def longreg(t):
+            return t[0] == "r" and t[1] in ("r", "sr")
+
+        def is_sum(t):
+            return t[0] == "+" and longreg(t[1]) and t[2][0] == "c"
+        if x[0] in ("+", "-") and subs[1][0] == "c" and isinstance(subs[1][1], int):
+            k = subs[1][1] if x[0] == "+" else -subs[1][1]
+            if longreg(subs[0]):
+                return ["+", subs[0], ["c", k]]
+            if is_sum(subs[0]):
+                return ["+", subs[0][1], ["c", subs[0][2][1] + k]]
+        if x[0] == "+" and subs[0][0] == "c" and isinstance(subs[0][1], int):
+            if longreg(subs[1]):
+                return ["+", subs[1], ["c", subs[0][1]]]
+            if is_sum(subs[1]):
+                return ["+", subs[1][1], ["c", subs[1][2][1] + subs[0][1]]]
         return [x[0]] + subs
 
     def cexpr(self, case, x):
@@ -259,7 +276,7 @@ class C01(GenCheck):
     def holds(self, case, o):
         if isinstance(o, Err):
             if o.code == 6:
-                return True if "no value" in o.what or "not enough registers" in o.what else f"generator refused a well-typed statement: {o.what}"
+                return True if "no value" in o.what or "not enough registers" in o.what or "ZeroDivisionError" in o.what else f"generator refused a well-typed statement: {o.what}"
             return o.what
         red, checkable, why, W = self.expected(case)
         if not checkable:
